@@ -198,6 +198,32 @@ def r03_2(facts, res, rule, ex, fn_filter):
                             {"alternatives": sorted(arms), "nonterminal": nt}))
 
 
+def r03_4(facts, res, reach):
+    """A Display / Debug / IndentedDisplay implementation may only fail when the sink fails: `to_string()` and `format!`
+    panic ("a formatting trait implementation returned an error when the underlying stream did not") when fmt returns an
+    error of its own making.  Every construction of `fmt::Error` in a workspace function reachable from the printing entry
+    points is therefore a panic site."""
+    st = res.rule("R03-4", instances=0)
+    from facts import walk
+    for fid in reach:
+        f = facts.fns.get(fid)
+        if f is None or "body" not in f or not facts.is_workspace(fid):
+            continue
+        sig = f.get("sig", "")
+        if "std::fmt::Error" not in sig and "fmt::Result" not in sig:
+            continue
+        st["instances"] += 1
+        made = [n for n in walk(f["body"]) if n.get("k") in ("Path", "Struct") and str(n.get("path", "")).endswith("fmt::Error")
+                and str(n.get("res", "")).startswith(("Ctor", "Def", "Struct", "SelfCtor", "True")) and not n.get("mac")]
+        made = [n for n in made if str(n.get("ty", "")).endswith("fmt::Error") or n.get("k") == "Struct"]
+        res.oblige(1, not made)
+        for n in made:
+            res.add(Finding("R03-4", f["path"] + "|fmt::Error", "%s constructs fmt::Error itself: to_string() / format!() of this value panics "
+                            "instead of returning an error" % f["path"], f["file"], n.get("ln") or f.get("line"), {}))
+    if st["instances"] < 30:
+        raise BrokenCheck("R03-4: %d formatting functions reachable (floor 30)" % st["instances"])
+
+
 def run(facts, tier):
     res = Result("C03")
     res.explanation = (
@@ -230,4 +256,9 @@ def run(facts, tier):
     r03_3(facts, res, "R03-3", reach, reasons_e1.scc_reasons(facts, reach))
     if res.rules["R03-3"]["instances"] < 4:
         raise BrokenCheck("R03-3: %d recursion cycles found, floor 4" % res.rules["R03-3"]["instances"])
+    # cyclic entity definitions: the visited test of the expansion must see the whole chain (G1) and extend it (G2)
+    import guards
+    xreach, _ = facts.reachable([facts.fn("xml_info::attr_value_from_name")["id"]])
+    guards.rule(facts, res, "R03-3g", [facts.fns[x] for x in set(reach) | set(xreach) if x in facts.fns], want=("G1", "G2"), floor=1)
+    r03_4(facts, res, reach)
     return res
